@@ -133,3 +133,108 @@ Proof.
   eexists. eexists. eexists. eexists. split; [vm_compute; reflexivity|]. split; [vm_compute; reflexivity|].
   repeat split; vm_compute; reflexivity.
 Qed.
+
+(** ** (3) Currency.  Histories WITHOUT replayed headers ([plain_op]: messages, entrances, reads; no
+    crash / restart, no [OpReplay]).  With replayed headers the statements are false of the model
+    (and of the Go code), see the [_refuted] theorems below - hence [_partial]. *)
+
+(** every change of a kernel view comes with a later (height, round) or a version bump ... *)
+Theorem C11_kernel_version_bumped_on_change_partial : forall s o s' res,
+  MirrorAuth.auth_state s -> not_replay o = true -> step s o = Ok (s', res) ->
+  exists new, st_ev s' = st_ev s ++ new /\
+    (Forall ev_ok new -> kinv (views s) ->
+     forall k, is_slot k -> get_view s' k = get_view s k \/ vlt (get_view s k) (get_view s' k)).
+Proof. exact kernel_version_bumped_on_change. Qed.
+Print Assumptions C11_kernel_version_bumped_on_change_partial.
+
+(** ... and with a Mark*ViewUpdated event carrying exactly the new view: after the step every
+    kernel view is the last view marked for its slot during the step, or unchanged ([SY]) *)
+Theorem C11_kernel_views_are_last_marked_partial : forall s o s' res,
+  MirrorAuth.auth_state s -> not_replay o = true -> step s o = Ok (s', res) -> SY s s'.
+Proof. exact SY_step. Qed.
+Print Assumptions C11_kernel_views_are_last_marked_partial.
+
+(** [auth_state] (every signature held in a view is a valid one of that view's validator set)
+    holds in every reachable state: Proofs/MirrorAuth.v [views_authentic]; it is what makes a
+    commit-proof backfill that increased no signer set an exact no-op. *)
+
+(** a rejected replayed header changes the voting view without a version bump or an event *)
+Theorem C11_kernel_version_bumped_on_change_refuted :
+  exists s o s' res,
+    s = init_state 1 n_vs /\ step s o = Ok (s', res) /\ res = 2 /\
+    v_h (k_vot s') = v_h (k_vot s) /\ v_r (k_vot s') = v_r (k_vot s) /\ v_ver (k_vot s') = v_ver (k_vot s) /\
+    st_ev s' = st_ev s /\
+    List.length (v_phs (k_vot s)) = 0%nat /\ List.length (v_phs (k_vot s')) = 1%nat.
+Proof. exact kernel_version_bumped_on_change_refuted. Qed.
+Print Assumptions C11_kernel_version_bumped_on_change_refuted.
+
+(** After a gossip read that returned nothing: no nil-voted round is pending, all three slots are
+    marked sent and ARE the kernel's current committing / voting / next-round views. *)
+Theorem C11_gossip_current_after_empty_read_partial : forall ih ivs ops s' ios s'' c,
+  forallb plain_op ops = true -> mrun (ms_init ih ivs) ops = Ok (s', ios) ->
+  mstep s' MGRead = Ok (s'', c, IOGEmpty) ->
+  gm_nil (m_g (ms_m s'')) = None /\
+  forall k, is_slot k ->
+    go_has_been_sent (gslot (m_g (ms_m s'')) k) = true /\
+    go_v (gslot (m_g (ms_m s'')) k) = get_view (ms_k s'') k.
+Proof. exact gossip_current_after_empty_read. Qed.
+Print Assumptions C11_gossip_current_after_empty_read_partial.
+
+(** with a (rejected) replayed header: slot marked sent, same (height, round, version) as the
+    kernel's voting view, but the kernel's view holds a proposed header the slot's view lacks *)
+Theorem C11_gossip_current_after_empty_read_refuted :
+  exists s' ios s'' c,
+    forallb no_restart w_replay_ops = true /\
+    mrun (ms_init 1 n_vs) w_replay_ops = Ok (s', ios) /\ forallb ev_okb (st_ev (ms_k s')) = true /\
+    mstep s' MGRead = Ok (s'', c, IOGEmpty) /\
+    go_has_been_sent (gslot (m_g (ms_m s'')) ViewIDVoting) = true /\
+    triple (go_v (gslot (m_g (ms_m s'')) ViewIDVoting)) = triple (get_view (ms_k s'') ViewIDVoting) /\
+    go_v (gslot (m_g (ms_m s'')) ViewIDVoting) <> get_view (ms_k s'') ViewIDVoting /\
+    ~ view_le (get_view (ms_k s'') ViewIDVoting) (go_v (gslot (m_g (ms_m s'')) ViewIDVoting)).
+Proof. exact gossip_current_after_empty_read_refuted. Qed.
+Print Assumptions C11_gossip_current_after_empty_read_refuted.
+
+(** After a state-machine read that returned nothing: lastSentVersion is the version of the
+    kernel's view of the entered round, when that round is the voting or the committing round. *)
+Theorem C11_sm_current_after_empty_read_partial : forall ih ivs ops s' ios s'' c,
+  1 <= ih -> ih < two64 ->
+  forallb plain_op ops = true -> mrun (ms_init ih ivs) ops = Ok (s', ios) ->
+  Forall ev_ok (st_ev (ms_k s')) ->
+  mstep s' MSMRead = Ok (s'', c, IOEmpty) ->
+  forall vid, vid = ViewIDVoting \/ vid = ViewIDCommitting ->
+  v_h (get_view (ms_k s'') vid) = smm_h (sm_of s'') -> v_r (get_view (ms_k s'') vid) = smm_r (sm_of s'') ->
+  smm_last (sm_of s'') = v_ver (get_view (ms_k s'') vid).
+Proof. exact sm_current_after_empty_read. Qed.
+Print Assumptions C11_sm_current_after_empty_read_partial.
+
+(** with a (rejected) replayed header the versions still agree, but the kernel's view of the
+    entered round holds a proposed header that the state machine was never given *)
+Theorem C11_sm_content_current_after_empty_read_refuted :
+  exists s' ios s'' c v0,
+    mrun (ms_init 1 n_vs) w_sm_ops = Ok (s', ios) /\ forallb ev_okb (st_ev (ms_k s')) = true /\
+    hd (IONone) ios = IOEnterView v0 /\
+    mstep s' MSMRead = Ok (s'', c, IOEmpty) /\
+    smm_last (sm_of s'') = v_ver (get_view (ms_k s'') ViewIDVoting) /\
+    triple v0 = triple (get_view (ms_k s'') ViewIDVoting) /\
+    flat_map sm_vrv ios = [] /\
+    ~ view_le (get_view (ms_k s'') ViewIDVoting) v0.
+Proof. exact sm_content_current_after_empty_read_refuted. Qed.
+Print Assumptions C11_sm_content_current_after_empty_read_refuted.
+
+(** why restarts are excluded from (1): the views are reloaded with version 1 *)
+Theorem C11_gossip_versions_across_restart_refuted :
+  exists s' ios, mrun (ms_init 1 n_vs) w_restart_ops = Ok (s', ios) /\
+    map triple (nth_deliveries ViewIDVoting ios) = [(1, 0, 1); (1, 0, 2); (1, 0, 1)].
+Proof. exact gossip_versions_across_restart_refuted. Qed.
+Print Assumptions C11_gossip_versions_across_restart_refuted.
+
+(** Example for (3): entrance, a prevote, both consumers read until nothing is offered. *)
+Definition ex_cur_ops : list mop := [MEnter 1 0; MK (XOp (OpPrevote ex_pv)); MSMRead; MGRead].
+
+Example C11_current_example :
+  exists s' ios, mrun (ms_init 1 n_vs) ex_cur_ops = Ok (s', ios) /\
+    forallb plain_op ex_cur_ops = true /\ forallb ev_okb (st_ev (ms_k s')) = true /\
+    mstep s' MGRead = Ok (s', 0, IOGEmpty) /\ mstep s' MSMRead = Ok (s', 0, IOEmpty) /\
+    (smm_h (sm_of s'), smm_r (sm_of s'), smm_last (sm_of s')) = triple (get_view (ms_k s') ViewIDVoting) /\
+    triple (get_view (ms_k s') ViewIDVoting) = (1, 0, 2).
+Proof. eexists. eexists. split; [vm_compute; reflexivity|]. repeat split; vm_compute; reflexivity. Qed.
